@@ -19,6 +19,10 @@ import (
 	"github.com/cosi-project/runtime/pkg/state"
 	"github.com/cosi-project/runtime/pkg/state/impl/inmem"
 
+	"github.com/cosi-project/runtime/pkg/state/protobuf/client"
+	"github.com/cosi-project/runtime/pkg/state/protobuf/server"
+
+	"verif/harness/lb"
 	"verif/harness/res"
 	"verif/harness/vk"
 	"verif/harness/wl"
@@ -27,6 +31,8 @@ import (
 var configs = []wl.Cfg{{2, 2, 0}, {2, 8, 1}, {3, 7, 1}, {4, 16, 2}, {8, 8, 3}, {5, 64, 2}, {100, 100, 5}, {6, 6, 0}}
 
 func TestMain(m *testing.M) {
+	res.Register()
+
 	if os.Getenv("VERIF_CHILD") == "mint" {
 		mint()
 
@@ -93,7 +99,7 @@ func TestC12(t *testing.T) {
 			"was judged in the must-accept window and one bookmark was rejected after the ring wrapped or grew")
 		c.Assume("acceptance is only required for the most recent (initial-gap) events and only forbidden for malformed/foreign/ahead bookmarks; in between: accepted => exact continuation")
 		c.Assume("an ahead-of-log bookmark is obtained without knowing the encoding: a bookmark of another kind of the same state whose log is longer")
-		c.Require("resumes_accepted", "resumes_rejected", "resumes_in_must_accept_window", "tails_checked", "garbage_rejected", "foreign_process_bookmarks", "resumed_events_checked")
+		c.Require("resumes_accepted", "resumes_rejected", "resumes_in_must_accept_window", "tails_checked", "garbage_rejected", "foreign_process_bookmarks", "resumed_events_checked", "remote_scripts")
 
 		foreign := foreignBookmarks(c)
 		c.Count("foreign_process_bookmarks", len(foreign))
@@ -117,9 +123,23 @@ func TestC12(t *testing.T) {
 
 					var r *wl.Result
 
+					opts := wl.ScriptOpts{Steps: 40 + rng.IntN(50), Bookmarks: true, Foreign: foreign}
+
+					// a quarter of the scripts go through the gRPC client adapter -> loopback transport -> real server handlers
+					remote := k%4 == 3
+					if remote {
+						opts.WrapState = func(st state.CoreState) state.CoreState {
+							return client.NewAdapter(lb.New(server.NewState(st)), client.WithDisableWatchRetry())
+						}
+					}
+
 					synctest.Test(t, func(*testing.T) {
-						r = wl.RunScript(rng, cfg, wl.ScriptOpts{Steps: 40 + rng.IntN(50), Bookmarks: true, Foreign: foreign})
+						r = wl.RunScript(rng, cfg, opts)
 					})
+
+					if remote {
+						c.Count("remote_scripts", 1)
+					}
 
 					resumed := 0
 
